@@ -43,6 +43,8 @@ PINNED_CONSTS = {
     ('dotnet/parser.rs', 'MAX_PARAMS'): 2, ('dotnet/parser.rs', 'MAX_ROWS_PER_TABLE'): 1,
     ('dotnet/parser.rs', 'MAX_ARRAY_DIMENSION'): 3, ('dotnet/parser.rs', 'MAX_RECURSION'): 2,
     ('math.rs', 'DISTRIBUTION_CACHE_MAX_ENTRIES'): 1,
+    ('elf/parser.rs', 'MAX_NAME_LENGTH'): 1,
+    ('macho/parser.rs', 'MAX_SYMBOL_NAME_LENGTH'): 3, ('macho/parser.rs', 'MAX_CHAINED_IMPORTS'): 1,
     ('olecf/parser.rs', 'MAX_STREAM_SIZE'): 2, ('olecf/parser.rs', 'MAX_REGULAR_SECTOR'): 13,
     ('pe/parser.rs', 'MAX_PE_SECTIONS'): 1, ('pe/parser.rs', 'MAX_PE_IMPORTS'): 5, ('pe/parser.rs', 'MAX_PE_EXPORTS'): 2,
     ('pe/parser.rs', 'MAX_PE_RESOURCES'): 1, ('pe/parser.rs', 'MAX_PE_RESOURCE_DIR_ENTRIES'): 1,
@@ -201,6 +203,15 @@ def main():
     key_is_offset = vis.group(1).strip() == "usize" and ins[0].strip() == "export_node.offset"
     if pex.count("visited.") != 1:
         raise TranslateError("parse_exports: the visited set is used in an unexpected way (removed from? cleared?)")
+
+    # name caps (fixes daf5ea9e, 07806781): the window that is searched for the NUL terminator
+    elfp = re.sub(r"\s+", " ", strip_comments(src("lib/src/modules/elf/parser.rs")))
+    need(elfp, r"let name = str_table\.get\(str_idx as usize\.\.\)\?; let name = &name\[\.\.name\.len\(\)\.min\(Self::MAX_NAME_LENGTH\)\];", "elf parse_name: only MAX_NAME_LENGTH bytes are searched for the terminator")
+    need(re.sub(r"\s+", " ", fn_body(macho, "parse_symtab")), r"let string_data = &string_data \[\.\.string_data\.len\(\)\.min\(MAX_SYMBOL_NAME_LENGTH \+ 1\)\];", "macho parse_symtab: name window of MAX_SYMBOL_NAME_LENGTH + 1 bytes")
+    pcf = re.sub(r"\s+", " ", fn_body(macho, "parse_chained_fixups"))
+    need(pcf, r"\.chunks_exact\(entry_size\) \.take\(MAX_CHAINED_IMPORTS\)", "macho parse_chained_fixups: .take(MAX_CHAINED_IMPORTS)")
+    need(pcf, r"let name_buffer = &name_buffer\[\.\.name_buffer \.len\(\) \.min\(MAX_SYMBOL_NAME_LENGTH \+ 1\)\];", "macho parse_chained_fixups: name window of MAX_SYMBOL_NAME_LENGTH + 1 bytes")
+    need(pex, r"&& export_node\.prefix\.len\(\) \+ edge_label_str\.len\(\) <= MAX_SYMBOL_NAME_LENGTH \{ stack\.push\(ExportNode", "macho parse_exports: children are pushed only while the export name stays within MAX_SYMBOL_NAME_LENGTH")
 
     lines = []
     for k in ("pe", "dotnet", "dex"):
